@@ -125,7 +125,7 @@ def build_recipe(case, ctx):
             use = "with" if use != "unused" else "unused"
         elif use == "with" and cls not in ("current", "deprecated"):
             use = "and"
-        if prov == "noext" and cls not in ("current", "deprecated", "exception"):
+        if prov == "noext" and cls not in ("current", "deprecated", "exception") and not (cls == "licenseref" and "." not in ident):
             prov = "txt"
         if prov == "plusfile" and not plus_ok:
             prov = "txt"
@@ -182,7 +182,8 @@ def build_recipe(case, ctx):
         elif prov == "noext":
             licenses.append({"name": ident, "id": ident, "noext": True})
             P[ident] = f"LICENSES/{ident}"
-            noext[ident] = f"LICENSES/{ident}"
+            if cls != "licenseref":
+                noext[ident] = f"LICENSES/{ident}"  # only SPDX-named texts are reported as lacking an extension
         elif prov == "sub":
             licenses.append({"name": f"deep/er/{ident}.txt", "id": ident})
             P[ident] = f"LICENSES/deep/er/{ident}.txt"
